@@ -133,7 +133,8 @@ def load(cfg="dev", repo=REPO):
         if not os.path.exists(os.path.join(outdir, "naijascript.lib.json")):
             os.makedirs(os.path.dirname(outdir), exist_ok=True)
             _export(cfg, outdir, repo)
-            _prune(th)
+            if not os.environ.get("NSV_NOPRUNE"):
+                _prune(th)
             fresh = True
         fcntl.flock(lk, fcntl.LOCK_UN)
     with open(os.path.join(outdir, "naijascript.lib.json")) as fh:
